@@ -215,6 +215,13 @@ impl Gen {
             let n = self.rng.usize(2, 40);
             return vec![0; n];
         }
+        // frame-commensurate batches: a frame payload is 32761 = 181 * 181 bytes and a
+        // serialized record is 12 + len bytes, so with 169-byte (or 32749-byte) records an
+        // entry that loses exactly one full frame still parses as a whole number of records -
+        // the shape that turns a reader slip into accepted data instead of a dropped entry
+        if self.rng.chance(1, 40) {
+            return if self.rng.chance(3, 4) { vec![169; self.rng.usize(400, 700)] } else { vec![32_749; self.rng.usize(3, 5)] };
+        }
         let n = match self.rng.below(100) {
             0..=1 => 0,
             2..=61 => 1,
